@@ -7,6 +7,20 @@ lean/LdarModel/Generated/Wiring.lean (regenerated on every run).
   scenarioLoadedOncePerSim  _setup_programs() calls read_in_emissions exactly once, before the loop
                             over programs
   generationIgnoresLifecycle Source.generate_emissions reads no life-cycle attribute of an emission
+  customCopyHooks           every `__deepcopy__` / `__copy__` / `__reduce_ex__` / `__getstate__` defined by a
+                            class of virtual_world/* or virtual_world/emission_types/* (the classes reachable
+                            from Infrastructure): such a hook decides what `copy.deepcopy` / pickling really
+                            copies, so `simulateDeepCopies` alone says nothing when one exists
+  reduceArgs                per class, the attributes its `__reduce__` hands to the reconstructor
+                            ("*" = the whole `__dict__`)
+  initAttrs                 per class, the attributes its `__init__` sets (directly or through methods of
+                            the class it calls, base classes included)
+  reduceDropped             (class, attribute) set by `__init__` but not carried by `__reduce__`: such a field
+                            is lost whenever the object is deep-copied or pickled (pool mode)
+  reduceMisassigned         (class, attribute) the reconstructor restores from a different argument than the
+                            one `__reduce__` read it into
+  creationLifecycleReads    life-cycle attributes read or written in `Source._create_emission` and the Source
+                            methods it calls (generation must not look at life-cycle state)
 Fails loudly (RuntimeError -> exit 2) when a function it expects is missing.
 """
 import ast
@@ -15,7 +29,12 @@ import os
 from harness import shim
 
 LIFECYCLE = {"_status", "_active_days", "_tagged", "_days_since_tagged", "_repair_date", "_expiry_date",
-             "_record", "_tagged_by_company", "_recorded_by_company", "_init_detect_by", "_measured_rate"}
+             "_record", "_tagged_by_company", "_recorded_by_company", "_init_detect_by", "_measured_rate",
+             "_init_detect_date", "_tagged_by_crew", "_recorded_by_crew", "_tagging_rep_delay", "_days_emitting",
+             "_emitting", "_emitting_period_day_count", "_non_emitting_period_day_count", "_estimated_date_began",
+             "_estimated_days_active", "_flagged_by", "_tech_spat_covs", "_active_emissions", "_inactive_emissions",
+             "_next_emission"}
+COPY_HOOKS = ("__deepcopy__", "__copy__", "__reduce_ex__", "__getstate__")
 
 
 def _func(tree, name, cls=None):
@@ -27,6 +46,169 @@ def _func(tree, name, cls=None):
         if not cls and isinstance(node, ast.FunctionDef) and node.name == name:
             return node
     raise RuntimeError(f"extractor: function {cls + '.' if cls else ''}{name} not found")
+
+
+def _world_classes(src):
+    """name -> (ClassDef, relative file) for every class of virtual_world/ and emission_types/"""
+    out = {}
+    base = os.path.join(src, "virtual_world")
+    files = []
+    for root, _, fs in os.walk(base):
+        for f in sorted(fs):
+            if f.endswith(".py"):
+                files.append(os.path.join(root, f))
+    if not files:
+        raise RuntimeError("extractor: virtual_world/*.py not found")
+    for path in sorted(files):
+        tree = ast.parse(open(path).read())
+        for node in tree.body:
+            if isinstance(node, ast.ClassDef):
+                out[node.name] = (node, os.path.relpath(path, src))
+    for need in ("Infrastructure", "Site", "Equipment_Group", "Component", "Source", "Emission", "RepairableEmission",
+                 "NonRepairableEmission", "IntermittencyMixin"):
+        if need not in out:
+            raise RuntimeError(f"extractor: class {need} not found under virtual_world/")
+    return out
+
+
+def _methods(cls_node):
+    return {n.name: n for n in cls_node.body if isinstance(n, ast.FunctionDef)}
+
+
+def _mro(name, classes):
+    """linearised bases inside the scanned packages (good enough for attribute collection)"""
+    seen, order = set(), []
+
+    def go(n):
+        if n in seen or n not in classes:
+            return
+        seen.add(n)
+        order.append(n)
+        for b in classes[n][0].bases:
+            bn = b.id if isinstance(b, ast.Name) else (b.attr if isinstance(b, ast.Attribute) else None)
+            if bn:
+                go(bn)
+    go(name)
+    return order
+
+
+def _lookup(name, meth, classes):
+    for c in _mro(name, classes):
+        m = _methods(classes[c][0]).get(meth)
+        if m is not None:
+            return c, m
+    return None, None
+
+
+def _self_attr_stores(fn):
+    out = []
+    for n in ast.walk(fn):
+        tgts = []
+        if isinstance(n, ast.Assign):
+            tgts = n.targets
+        elif isinstance(n, (ast.AnnAssign, ast.AugAssign)):
+            tgts = [n.target]
+        for t in tgts:
+            for x in ast.walk(t):
+                if isinstance(x, ast.Attribute) and isinstance(x.value, ast.Name) and x.value.id == "self" \
+                        and isinstance(x.ctx, ast.Store) and x.attr not in out:
+                    out.append(x.attr)
+    return out
+
+
+def _self_calls(fn):
+    out = []
+    for n in ast.walk(fn):
+        if isinstance(n, ast.Call) and isinstance(n.func, ast.Attribute):
+            v = n.func.value
+            if isinstance(v, ast.Name) and v.id == "self":
+                out.append(n.func.attr)
+            # super().__init__(...) / super().method(...)
+            if isinstance(v, ast.Call) and isinstance(v.func, ast.Name) and v.func.id == "super":
+                out.append("super:" + n.func.attr)
+    return out
+
+
+def _init_attrs(name, classes):
+    """attributes set by __init__ of class `name` incl. methods of the class (or its bases) it calls"""
+    attrs, done = [], set()
+
+    def visit(cls_name, meth):
+        owner, fn = _lookup(cls_name, meth, classes)
+        if fn is None or (owner, meth) in done:
+            return
+        done.add((owner, meth))
+        for a in _self_attr_stores(fn):
+            if a not in attrs:
+                attrs.append(a)
+        for c in _self_calls(fn):
+            if c.startswith("super:"):
+                # continue in the bases of the class that owns this method
+                for b in _mro(owner, classes)[1:]:
+                    visit(b, c[6:])
+            else:
+                visit(name, c)
+    visit(name, "__init__")
+    return attrs
+
+
+def _reduce_info(name, classes):
+    """(args, misassigned): attribute names handed over by the class's own/inherited __reduce__ and the
+    attributes its reconstructor restores from the wrong position; ("*", []) for `self.__dict__`"""
+    owner, fn = _lookup(name, "__reduce__", classes)
+    if fn is None:
+        return None, []
+    ret = next((n for n in ast.walk(fn) if isinstance(n, ast.Return)), None)
+    if ret is None or not isinstance(ret.value, ast.Tuple) or len(ret.value.elts) < 2:
+        raise RuntimeError(f"extractor: {owner}.__reduce__ does not return (callable, args)")
+    ctor, args = ret.value.elts[0], ret.value.elts[1]
+    if isinstance(args, ast.Name):
+        bound = None
+        for n in ast.walk(fn):
+            if isinstance(n, ast.Assign) and any(isinstance(t, ast.Name) and t.id == args.id for t in n.targets):
+                bound = n.value
+        if bound is None:
+            raise RuntimeError(f"extractor: {owner}.__reduce__: cannot resolve `{args.id}`")
+        args = bound
+    if not isinstance(args, ast.Tuple):
+        raise RuntimeError(f"extractor: {owner}.__reduce__: argument tuple not literal")
+    names = []
+    for e in args.elts:
+        if isinstance(e, ast.Attribute) and isinstance(e.value, ast.Name) and e.value.id == "self":
+            names.append("*" if e.attr == "__dict__" else e.attr)
+        else:
+            names.append("?" + ast.unparse(e))
+    if names == ["*"]:
+        # reconstructor must put the dict back: `<obj>.__setstate__(state)` / `__dict__.update(state)`
+        rn = ctor.attr if isinstance(ctor, ast.Attribute) else None
+        o2, rfn = _lookup(name, rn, classes) if rn else (None, None)
+        ok = False
+        if rfn is not None:
+            for n in ast.walk(rfn):
+                if isinstance(n, ast.Call) and isinstance(n.func, ast.Attribute) and n.func.attr in ("__setstate__", "update"):
+                    ok = True
+            _, ss = _lookup(name, "__setstate__", classes)
+            if ss is not None and not any(isinstance(n, ast.Call) and isinstance(n.func, ast.Attribute)
+                                          and n.func.attr == "update" for n in ast.walk(ss)):
+                ok = False
+        return names, ([] if ok else ["__dict__"])
+    # positional reconstructor: parameter i must be stored into the attribute argument i was read from
+    rn = ctor.attr if isinstance(ctor, ast.Attribute) else None
+    o2, rfn = _lookup(name, rn, classes) if rn else (None, None)
+    if rfn is None:
+        raise RuntimeError(f"extractor: reconstructor of {owner}.__reduce__ not found")
+    params = [a.arg for a in rfn.args.args][1:]  # drop cls
+    stored = {}
+    for n in ast.walk(rfn):
+        if isinstance(n, ast.Assign) and isinstance(n.value, ast.Name):
+            for t in n.targets:
+                if isinstance(t, ast.Attribute) and isinstance(t.value, ast.Name):
+                    stored[n.value.id] = t.attr
+    mis = []
+    for i, a in enumerate(names):
+        if i >= len(params) or stored.get(params[i]) != a:
+            mis.append(a)
+    return names, mis
 
 
 def extract():
@@ -83,7 +265,55 @@ def extract():
     f = _func(tree, "generate_emissions", "Source")
     attrs = {n.attr for n in ast.walk(f) if isinstance(n, ast.Attribute)}
     facts["generationIgnoresLifecycle"] = not (attrs & LIFECYCLE)
+    # --- Source._create_emission and the Source methods it calls -----------------------------------
+    classes = _world_classes(src)
+    reads, done, todo = [], set(), ["_create_emission"]
+    smeth = _methods(classes["Source"][0])
+    if "_create_emission" not in smeth:
+        raise RuntimeError("extractor: Source._create_emission not found")
+    while todo:
+        m = todo.pop()
+        if m in done or m not in smeth:
+            continue
+        done.add(m)
+        for n in ast.walk(smeth[m]):
+            if isinstance(n, ast.Attribute) and n.attr in LIFECYCLE:
+                item = f"Source.{m}:{n.attr}"
+                if item not in reads:
+                    reads.append(item)
+        todo += [c for c in _self_calls(smeth[m]) if not c.startswith("super:")]
+    facts["creationLifecycleReads"] = sorted(reads)
+    facts["creationHelpersScanned"] = sorted(done)
+    # --- copy hooks and __reduce__ tables ---------------------------------------------------------------
+    hooks, reduce_args, init_attrs, dropped, misassigned = [], [], [], [], []
+    for name in sorted(classes):
+        node, rel = classes[name]
+        for m in _methods(node):
+            if m in COPY_HOOKS:
+                hooks.append(f"{name}.{m}")
+        args, mis = _reduce_info(name, classes)
+        if args is None:
+            continue  # no __reduce__ anywhere in its bases: default pickling keeps the whole __dict__
+        ia = _init_attrs(name, classes)
+        reduce_args.append((name, args))
+        init_attrs.append((name, ia))
+        if args != ["*"]:
+            dropped += [(name, a) for a in ia if a not in args]
+        misassigned += [(name, a) for a in mis]
+    facts["customCopyHooks"] = hooks
+    facts["reduceArgs"] = reduce_args
+    facts["initAttrs"] = init_attrs
+    facts["reduceDropped"] = dropped
+    facts["reduceMisassigned"] = misassigned
     return facts
+
+
+def _lean_str(s):
+    return '"' + s.replace("\\", "\\\\").replace('"', '\\"') + '"'
+
+
+def _lean_strs(l):
+    return "[" + ", ".join(_lean_str(x) for x in l) + "]"
 
 
 def write(facts):
@@ -94,6 +324,16 @@ def write(facts):
             "namespace LdarModel.Generated.Wiring"]
     for k in ("simulateDeepCopies", "simulateUsesOnlyCopy", "scenarioLoadedOncePerSim", "generationIgnoresLifecycle"):
         body.append(f"def {k} : Bool := {'true' if facts[k] else 'false'}")
+    body.append(f"def customCopyHooks : List String := {_lean_strs(facts['customCopyHooks'])}")
+    body.append(f"def creationLifecycleReads : List String := {_lean_strs(facts['creationLifecycleReads'])}")
+    body.append(f"def creationHelpersScanned : List String := {_lean_strs(facts['creationHelpersScanned'])}")
+    for key in ("reduceArgs", "initAttrs"):
+        body.append(f"def {key} : List (String × List String) := [")
+        body.append(",\n".join(f"  ({_lean_str(c)}, {_lean_strs(a)})" for c, a in facts[key]))
+        body.append("]")
+    for key in ("reduceDropped", "reduceMisassigned"):
+        body.append(f"def {key} : List (String × String) := ["
+                    + ", ".join(f"({_lean_str(c)}, {_lean_str(a)})" for c, a in facts[key]) + "]")
     body.append("end LdarModel.Generated.Wiring")
     new = "\n".join(body) + "\n"
     old = open(path).read() if os.path.exists(path) else None
